@@ -76,6 +76,7 @@ stand where the reference markers were.
 """
 import collections
 import copy
+import enum
 import functools
 import importlib
 import itertools
@@ -119,6 +120,30 @@ V_MODULE = '${%s}' % SUB              # a module object: not deep-copyable
 V_LATE = '${%s.OBJ}' % LATE           # importable only once LATE is installed
 
 
+# outside the 14-value menu, part 'falsy-objects': ${...} naming an object
+# that is FALSE in a boolean context.  name -> attribute path below MOD
+FALSY_OBJECTS = [
+    ('zero', ['ZERO']), ('false', ['FALSE']), ('none', ['NONE']),
+    ('empty_tuple', ['EMPTY_TUPLE']), ('empty_text', ['EMPTY_TEXT']),
+    ('empty_list', ['EMPTY_LIST']), ('empty_dict', ['EMPTY_DICT']),
+    ('enum_member_zero', ['Layer', 'BACKGROUND']),
+    ('instance_bool_false', ['FALSY']), ('instance_len_zero', ['SIZED0']),
+]
+FALSY_KIND = 'falsy_object_ref'
+FALSY_MARKER = {name: '${%s}' % '.'.join([MOD] + attrs)
+                for name, attrs in FALSY_OBJECTS}
+FALSY_MENU = [FALSY_MARKER[name] for name, _ in FALSY_OBJECTS]
+# tree option 'falsy' (parts 'falsy-handles'): every resource handle of the
+# tree is an instance of a Handle subclass that is false in a boolean context
+# and loads a resource that is false as well
+#   flavour               bool(handle)            load() returns
+#   'len_zero'            __len__() == 0          a fresh empty list
+#   'bool_false'          __bool__() is False     an object whose __bool__()
+#                                                 is False
+#   'false_until_loaded'  __bool__() == cached    None
+FALSY_FLAVOURS = ('len_zero', 'bool_false', 'false_until_loaded')
+
+
 def jkey(value):
     return json.dumps(value, sort_keys=True)
 
@@ -137,10 +162,14 @@ EXTRA_KINDS = ['object_ref_to_marker_text', 'uncopyable_object_ref',
                'module_object_ref']
 KIND_OF = {jkey(v): k for v, k in zip(MENU + EXTRA_MENU, KINDS + EXTRA_KINDS)}
 KIND_OF[jkey(V_LATE)] = 'late_module_ref'
+for _name, _text in FALSY_MARKER.items():
+    KIND_OF[jkey(_text)] = FALSY_KIND + '_' + _name
+FALSY_NAME_OF = {FALSY_KIND + '_' + name: name for name, _ in FALSY_OBJECTS}
+del _name, _text
 REF_KINDS = {'object_ref', 'attr_ref', 'package_ref', 'res_ref', 'handle_ref',
              'object_ref_to_marker_text', 'uncopyable_object_ref',
              'module_object_ref', 'late_module_ref', 'res_path_ref',
-             'handle_path_ref'}
+             'handle_path_ref'} | set(FALSY_NAME_OF)
 
 # -- resource paths ---------------------------------------------------------
 # Keys of a ResourceMap are arbitrary strings (file names, typically).  Each
@@ -266,10 +295,54 @@ class Unavailable(Exception):
 _NEVER_LOADED = Named('<the resource handle never completed a load>')
 
 
+class FalsyRes(Res):
+    """A loaded resource that is false in a boolean context."""
+
+    def __bool__(self):
+        return False
+
+    def __repr__(self):
+        return f'<FalsyRes {self.label}>'
+
+
+class EmptyListRes(list):
+    """A loaded resource that is an empty list (identity is checked)."""
+
+    def __init__(self, label):
+        super().__init__()
+        self.label = label
+
+    def __repr__(self):
+        return f'<EmptyListRes {self.label}>'
+
+
+class FalsyNamed(Named):
+    """Importable object whose __bool__() is False."""
+
+    def __bool__(self):
+        return False
+
+
+class SizedNamed(Named):
+    """Importable object whose __len__() is 0."""
+
+    def __len__(self):
+        return 0
+
+
+Layer = enum.IntEnum('Layer', {'BACKGROUND': 0, 'FOREGROUND': 1})
+
+
 class ResHandle(desper.Handle):
     """``switch['available']`` false: load() raises (transient cause).
     ``produced`` lists what load() returned, oldest first: the table's
-    "loaded resource" is the last one, independently of desper's cache."""
+    "loaded resource" is the last one, independently of desper's cache.
+    The subclasses below are FALSE in a boolean context (tree option
+    'falsy'); the harness never asks a handle for its truth value except to
+    count the coverage names."""
+
+    def make_resource(self):
+        return Res(self.label)
 
     def __init__(self, label, switch=None):
         self.label = label
@@ -281,11 +354,44 @@ class ResHandle(desper.Handle):
         self.loads += 1
         if not self.switch['available']:
             raise Unavailable(f'resource {self.label} is not there yet')
-        self.produced.append(Res(self.label))
+        self.produced.append(self.make_resource())
         return self.produced[-1]
 
     def __repr__(self):
-        return f'<ResHandle {self.label}>'
+        return f'<{type(self).__name__} {self.label}>'
+
+
+class LenZeroHandle(ResHandle):
+    """Sized like an empty collection; loads an empty list."""
+
+    def __len__(self):
+        return 0
+
+    def make_resource(self):
+        return EmptyListRes(self.label)
+
+
+class BoolFalseHandle(ResHandle):
+    def __bool__(self):
+        return False
+
+    def make_resource(self):
+        return FalsyRes(self.label)
+
+
+class FalseUntilLoadedHandle(ResHandle):
+    """True once its resource is cached; the resource is None."""
+
+    def __bool__(self):
+        return self.cached
+
+    def make_resource(self):
+        return None
+
+
+HANDLE_CLASSES = {None: ResHandle, 'len_zero': LenZeroHandle,
+                  'bool_false': BoolFalseHandle,
+                  'false_until_loaded': FalseUntilLoadedHandle}
 
 
 class Plain:
@@ -364,11 +470,18 @@ class Harness:
     paths           further key lists (PATH_TABLE) that get a resource handle
     late_installed  false: the module LATE is not importable until
                     install_late()
+    falsy           None, or the flavour (FALSY_FLAVOURS) of every resource
+                    handle of the tree
     """
 
-    def __init__(self, split_char='/', paths=(), late_installed=True):
+    def __init__(self, split_char='/', paths=(), late_installed=True,
+                 falsy=None):
         if split_char not in SPLIT_CHARS:
             raise HarnessError(f'delimiter {split_char!r} is not in the menu')
+        if falsy not in HANDLE_CLASSES:
+            raise HarnessError(f'unknown handle flavour {falsy!r}')
+        self.falsy = falsy
+        self.handle_cls = HANDLE_CLASSES[falsy]
         self.split_char = split_char
         self.paths = [list(keys) for keys in paths]
         self.late_installed = late_installed
@@ -409,6 +522,19 @@ class Harness:
         sub.Cls = type('Cls', (), {'attr': self.sub_attr})
         self.marktxt = mod.MARKTXT = ''.join(['$res', '{a.b}'])
         self.lock = mod.LOCK = threading.Lock()
+        # named objects that are false in a boolean context
+        mod.ZERO, mod.FALSE, mod.NONE = 0, False, None
+        mod.EMPTY_TUPLE, mod.EMPTY_TEXT = (), ''
+        mod.EMPTY_LIST, mod.EMPTY_DICT = [], {}
+        mod.Layer = Layer
+        mod.FALSY = FalsyNamed('mod.FALSY')
+        mod.SIZED0 = SizedNamed('mod.SIZED0')
+        self.falsy_objects = {
+            name: functools.reduce(getattr, attrs, mod)
+            for name, attrs in FALSY_OBJECTS}
+        for name, obj in self.falsy_objects.items():
+            if obj:
+                raise HarnessError(f'the named object {name} is not false')
         self.mod, self.pkg, self.sub = mod, pkg, sub
         sys.modules[MOD] = mod
         sys.modules[PKG] = pkg
@@ -421,9 +547,9 @@ class Harness:
         # the enclosing resource tree
         self.switch = {'available': True}
         self.root = desper.ResourceMap()
-        self.h_ab = ResHandle('a/b', self.switch)
-        self.h_ac = ResHandle('a/c', self.switch)
-        self.h_r = ResHandle('r', self.switch)
+        self.h_ab = self.handle_cls('a/b', self.switch)
+        self.h_ac = self.handle_cls('a/c', self.switch)
+        self.h_r = self.handle_cls('r', self.switch)
         self.root[self.key('a', 'b')] = self.h_ab
         self.root[self.key('a', 'c')] = self.h_ac
         self.root[self.key('r')] = self.h_r
@@ -431,7 +557,7 @@ class Harness:
         for keys in self.paths:
             if tuple(keys) in self.path_handles:
                 continue
-            hdl = ResHandle('/'.join(keys), self.switch)
+            hdl = self.handle_cls('/'.join(keys), self.switch)
             self.root[self.key(*keys)] = hdl
             self.path_handles[tuple(keys)] = hdl
         return self
@@ -508,6 +634,8 @@ class Harness:
             return kind, 'is', self.lock
         if kind == 'module_object_ref':
             return kind, 'is', self.sub
+        if kind in FALSY_NAME_OF:
+            return kind, 'is', self.falsy_objects[FALSY_NAME_OF[kind]]
         return kind, 'eq', value
 
     def replace_a_b(self):
@@ -515,10 +643,10 @@ class Harness:
         further path of the case; from now on the table expects those (and
         what they load)."""
         self.h_ab_old = self.h_ab
-        self.h_ab = ResHandle('a/b (second)', self.switch)
+        self.h_ab = self.handle_cls('a/b (second)', self.switch)
         self.root[self.key('a', 'b')] = self.h_ab
         for keys in list(self.path_handles):
-            hdl = ResHandle('/'.join(keys) + ' (second)', self.switch)
+            hdl = self.handle_cls('/'.join(keys) + ' (second)', self.switch)
             self.root[self.key(*keys)] = hdl
             self.path_handles[keys] = hdl
 
@@ -632,6 +760,8 @@ def description_form(procs, ents):
         return 'resource_ref'
     if 'object_ref_to_marker_text' in kinds:
         return 'object_ref_to_marker_text'
+    if kinds & set(FALSY_NAME_OF):
+        return FALSY_KIND
     if kinds & {'object_ref', 'attr_ref', 'package_ref', 'late_module_ref'}:
         return 'object_ref'
     return 'no_ref'
@@ -717,9 +847,14 @@ def split_case(case):
     entry, sparse, procs, ents, steps, tree = case
     if entry not in ALL_ENTRIES:
         raise HarnessError(f'unknown entry {entry!r}')
-    if not isinstance(tree, dict) or set(tree) - {'split_char'} or tree.get(
-            'split_char', '/') not in SPLIT_CHARS:
+    if not isinstance(tree, dict) or set(tree) - {'split_char', 'falsy'} or (
+            tree.get('split_char', '/') not in SPLIT_CHARS) or (
+            'falsy' in tree and tree['falsy'] not in FALSY_FLAVOURS):
         raise HarnessError(f'unknown tree options {tree!r}')
+    if 'falsy' in tree and not (entry.startswith('file')
+                                and has_resource_ref(procs, ents)):
+        raise HarnessError(f'tree options {tree!r} need a file entry and a '
+                           '$res{} / $handle{} marker')
     if not isinstance(steps, list) or any(s not in STEPS for s in steps):
         raise HarnessError(f'unknown steps {steps!r}')
     order = [STEPS.index(s) for s in steps]
@@ -756,7 +891,7 @@ def run_world_case(case):
     entry, sparse, procs, ents, steps, tree = split_case(case)
     late = not any(s.startswith('fail_module') for s in steps)
     with Harness(tree.get('split_char', '/'), paths_of(procs, ents),
-                 late) as h:
+                 late, tree.get('falsy')) as h:
         return _check_world_case(h, entry, sparse, procs, ents, steps,
                                  jkey(list(case)))
 
@@ -779,6 +914,9 @@ def _check_world_case(h, entry, sparse, procs, ents, steps, key):
     if custom_delimiter:
         # (only then: signatures of the stock delimiter stay as they were)
         feat['delimiter'] = 'custom'
+    if h.falsy is not None:
+        # (only then, likewise)
+        feat['referents'] = 'falsy_handles'
     hits = collections.Counter()
     calls = 0
     # what the world must contain: the description, plus what the further
@@ -968,6 +1106,10 @@ def _check_world_case(h, entry, sparse, procs, ents, steps, key):
                 hits['custom_delimiter_' + kind] += hits[kind]
         if len(WORLD_KEY.get(entry, [])) > 1:
             hits['custom_delimiter_composite_world_key'] += 1
+    if h.falsy is not None:
+        hits['falsy_handles_' + h.falsy] += 1
+        if failing:
+            hits['falsy_handles_after_failed_attempt'] += 1
     if isolation:
         # (all clauses passed: the "$notref" arguments arrived unchanged)
         hits['other_handle_customised'] += 1
@@ -1170,6 +1312,8 @@ def _check_args(h, spec, inst, where, fail, hits, is_file):
         else:
             ok = same_value(got, exp)
         form = kind
+        if kind in FALSY_NAME_OF:
+            form = FALSY_KIND
         if kind in ('res_path_ref', 'handle_path_ref'):
             _, key_name, position, keys = PATH_TABLE[value]
             form = kind + (':identifier_keys' if all(
@@ -1178,11 +1322,28 @@ def _check_args(h, spec, inst, where, fail, hits, is_file):
             fail('arg_value', f'{where} {slot} written as {value!r}: '
                  f'expected {"the object" if how == "is" else "the value"} '
                  f'{short(exp)}, received {short(got)}', form)
-        if form != kind:
+        if kind in ('res_path_ref', 'handle_path_ref'):
             hits['path_key_' + key_name] += 1
             hits['path_position_' + position] += 1
         if is_file:
             hits[kind] += 1
+            if kind in FALSY_NAME_OF:
+                hits[FALSY_KIND] += 1
+                if slot.startswith('kwargs'):
+                    hits['falsy_object_kwarg_ref'] += 1
+                if carrier == 'processor':
+                    hits['falsy_object_processor_arg_ref'] += 1
+            if h.falsy is not None and kind in (
+                    'handle_ref', 'handle_path_ref') and not got:
+                # (the handle passed the identity clause and is false now)
+                hits['falsy_handle_ref'] += 1
+                hits['falsy_handle_ref_' + h.falsy] += 1
+                if kind == 'handle_path_ref' and position != 'top':
+                    hits['falsy_handle_ref_below_a_sub_map'] += 1
+            if h.falsy is not None and kind in (
+                    'res_ref', 'res_path_ref') and not got:
+                hits['falsy_resource_ref'] += 1
+                hits['falsy_resource_ref_' + h.falsy] += 1
             if kind in REF_KINDS and slot.startswith('kwargs'):
                 hits['kwarg_ref'] += 1
             if kind in REF_KINDS and carrier == 'processor':
@@ -1273,7 +1434,8 @@ def arg_shapes_full(menu):
     return out
 
 
-def with_steps(entry, sparse, procs, ents, split_char='/', first=()):
+def with_steps(entry, sparse, procs, ents, split_char='/', first=(),
+               falsy=None):
     """The case of this description and entry: file entries whose description
     holds a $res{} / $handle{} marker go on with the reload step (that case
     contains the single-load case: same first load, same checks).  ``first``:
@@ -1282,9 +1444,14 @@ def with_steps(entry, sparse, procs, ents, split_char='/', first=()):
     steps = list(first)
     if entry.startswith('file') and has_resource_ref(procs, ents):
         steps.append(RELOAD)
-    if split_char == '/':
+    tree = {}
+    if split_char != '/':
+        tree['split_char'] = split_char
+    if falsy is not None:
+        tree['falsy'] = falsy
+    if not tree:
         return (entry, sparse, procs, ents, steps)
-    return (entry, sparse, procs, ents, steps, {'split_char': split_char})
+    return (entry, sparse, procs, ents, steps, tree)
 
 
 def with_isolation(cases):
